@@ -23,9 +23,9 @@ pub(crate) use cover;
 '''
 
 
-def concrete_values(crate_dir, target_dir, harness):
+def concrete_values(crate_dir, target_dir, harness, extra=()):
     rc, out, dt = run.run_kani(crate_dir, target_dir, harness=harness, jobs=1,
-                               extra=['-Z', 'concrete-playback', '--concrete-playback=print'])
+                               extra=['-Z', 'concrete-playback', '--concrete-playback=print'] + list(extra))
     # the printed unit test contains   let concrete_vals: Vec<Vec<u8>> = vec![ // 0\n vec![0, 0],\n ... ];
     m = re.search(r'let concrete_vals: Vec<Vec<u8>> = vec!\[(.*?)\n\s*\];', out, flags=re.S)
     if not m:
@@ -40,14 +40,31 @@ def concrete_values(crate_dir, target_dir, harness):
 def nativize(source):
     """strip Kani attributes so that the harness is an ordinary pub fn"""
     out = []
+    after_proof = False
     for line in source.splitlines():
         s = line.strip()
         if s in ('#[cfg(kani)]', '#[kani::proof]') or s.startswith('#[kani::unwind') or s.startswith('#[kani::stub'):
+            after_proof = after_proof or s == '#[kani::proof]'
             continue
+        if after_proof and line.startswith('fn '):
+            line = 'pub ' + line
+        if s:
+            after_proof = False
         out.append(line)
     src = '\n'.join(out) + '\n'
     src = src.replace('#![allow(unused, non_snake_case)]\n', '#![allow(unused, non_snake_case)]\nuse crate::kani;\n', 1)
     src = re.sub(r'^fn (\w+_h\w*)\(\)', r'pub fn \1()', src, flags=re.M)
+    if 'fn counting_alloc(' in src:
+        # under Kani std::alloc::alloc is stubbed by the counter; natively the same counter is driven by a global allocator
+        src += '''
+pub struct CountingGlobal;
+unsafe impl std::alloc::GlobalAlloc for CountingGlobal {
+    unsafe fn alloc(&self, l: std::alloc::Layout) -> *mut u8 { ALLOCS += 1; std::alloc::GlobalAlloc::alloc(&std::alloc::System, l) }
+    unsafe fn dealloc(&self, p: *mut u8, l: std::alloc::Layout) { std::alloc::GlobalAlloc::dealloc(&std::alloc::System, p, l) }
+}
+#[global_allocator]
+static COUNTING_GLOBAL: CountingGlobal = CountingGlobal;
+'''
     return src
 
 
